@@ -29,15 +29,16 @@ PID = "C08"
 
 F_CTL, F_BLOCK, F_BYVAL, F_DECOY, F_CTLCLI, F_NOTRAFFIC = 1, 2, 4, 8, 16, 32
 CLS = {1: "socket", 2: "accept4", 4: "epoll_create1", 8: "eventfd", 16: "timerfd_create", 32: "connect", 64: "bind",
-       128: "listen", 256: "open", 512: "setsockopt", 1024: "so_error"}
-EMFILE, ENFILE, ENOMEM, EADDRINUSE, EACCES, ECONNREFUSED, ETIMEDOUT, EADDRNOTAVAIL, ENOPROTOOPT, ECONNABORTED = \
-    24, 23, 12, 98, 13, 111, 110, 99, 92, 103
+       128: "listen", 256: "open", 512: "setsockopt", 1024: "so_error", 2048: "fread"}
+EMFILE, ENFILE, ENOMEM, EADDRINUSE, EACCES, ECONNREFUSED, ETIMEDOUT, EADDRNOTAVAIL, ENOPROTOOPT, ECONNABORTED, EISDIR = \
+    24, 23, 12, 98, 13, 111, 110, 99, 92, 103, 21
 ERRNOS = {1: [EMFILE, ENFILE, ENOMEM], 2: [EMFILE, ENFILE, ENOMEM, ECONNABORTED], 4: [EMFILE, ENFILE, ENOMEM],
           8: [EMFILE, ENFILE, ENOMEM], 16: [EMFILE, ENFILE, ENOMEM], 32: [ECONNREFUSED, EADDRNOTAVAIL],
           64: [EADDRINUSE, EACCES], 128: [EADDRINUSE], 256: [EMFILE, ENFILE, ENOMEM], 512: [ENOPROTOOPT],
-          1024: [ECONNREFUSED, ETIMEDOUT]}
+          1024: [ECONNREFUSED, ETIMEDOUT],
+          2048: [EISDIR]}       # the stream opened, reading it fails (a directory in place of the credential file)
 ENAME = {24: "EMFILE", 23: "ENFILE", 12: "ENOMEM", 98: "EADDRINUSE", 13: "EACCES", 111: "ECONNREFUSED", 110: "ETIMEDOUT",
-         99: "EADDRNOTAVAIL", 92: "ENOPROTOOPT", 103: "ECONNABORTED", 0: "-"}
+         99: "EADDRNOTAVAIL", 92: "ENOPROTOOPT", 103: "ECONNABORTED", 21: "EISDIR", 0: "-"}
 ALL_TP = ["ux", "uxf", "tcp", "tls", "utls", "utlsfb", "btcp", "btls"]
 TLS_TP = ["tls", "utls", "utlsfb", "btls"]
 
@@ -119,6 +120,7 @@ def mc_configs(tier):
         "files": dict(MC_BASE, MaxSock=2, MaxOps=3, TPs='{"ux", "uxf"}' if not q else '{"uxf"}', CtlChoice="{TRUE, FALSE}",
                       App="TRUE"),
         "utls": dict(MC_BASE, PoolMax=1, MaxSock=2, MaxFail=2, MaxOps=3 if q else 4, TPs='{"utls"}', CtlChoice="{TRUE}"),
+        "creds": dict(MC_BASE, PoolMax=2, MaxSock=2, MaxFail=2, MaxOps=2 if q else 3, TPs='{"btls"}', App="TRUE"),
     }
     if not q:
         c["mix"] = dict(MC_BASE, PoolMax=2, MaxSock=3, MaxOps=4, TPs='{"tcp", "uxf"}')
@@ -127,6 +129,7 @@ def mc_configs(tier):
         "passcred_leak": dict(c["utls"], Dev='{"passcred_leak"}'),
         "eventfd_abort": dict(c["pool3"], Dev='{"eventfd_abort"}'),
         "child_ctl_del": dict(c["utls"], Dev='{"child_ctl_del"}'),
+        "credread_leak": dict(c["creds"], Dev='{"credread_leak"}'),
     }
     return c, dev
 
@@ -160,7 +163,7 @@ def run_mc(name, consts, workers, coverage=True):
 
 
 DEV_EXPECT = {"utls_ux_fail_leak": "FailedCallLeaksNothing", "passcred_leak": "FailedCallLeaksNothing",
-              "eventfd_abort": "ErrnoNotAbort", "child_ctl_del": "CleanupIsLocal"}
+              "eventfd_abort": "ErrnoNotAbort", "child_ctl_del": "CleanupIsLocal", "credread_leak": "FailedCallLeaksNothing"}
 MC_ACTIONS = ["ApiBegin", "StepOk", "StepFail", "Unwind", "ApiEndOk", "CloseBegin", "Closing", "Fork", "ChildDone", "OwnerProbe"]
 
 
